@@ -4,9 +4,13 @@
   EVERY selection (field, fragment spread, inline fragment), selection set, directive (of the definition, of its variable
   definitions, of its selections) and argument (of fields and of directives) of an operation or fragment definition, at any
   depth; each of them is what `parse` returns for its spanned text inside the minimal context, modulo the offset.
+  For TYPE-SYSTEM definitions and extensions: `Definition.tdirs` / `.descs` (`Lemmas/SpanDirsTS.lean`) enumerate every
+  directive (with its arguments) and every description — `span_reparse_directive_ts`, `span_reparse_argument_ts`,
+  `span_reparse_description_all`.
 -/
 import PyGqlModel.Props.C02_reparse_ctx
 import PyGqlModel.Lemmas.SpanSels
+import PyGqlModel.Lemmas.SpanDirsTS
 namespace PyGql.Props.C02
 open PyGql PyGql.Ast PyGql.Parse PyGql.Spec PyGql.Props.C01
 open PyGql.Spec.Lexical (slice)
@@ -61,6 +65,53 @@ theorem span_reparse_argument_all (fl : Flags) (s : Text) (d : Document) (h : pa
   obtain ⟨c, hc⟩ := hwf (wf_of_mem fl s d h x hx)
   exact span_reparse_argument fl s d h x hx arg hs c hc a b hloc
 
+/-! ### type-system definitions and extensions -/
+
+/-- every directive of every type-system definition / extension (`Definition.tdirs`: on the definition, on its field
+    definitions, argument definitions, enum values and input fields): `{ a σ⏎}` -/
+theorem span_reparse_directive_ts (fl : Flags) (s : Text) (d : Document) (h : parseText fl s = some d) :
+    ∀ x ∈ d.definitions, ∀ dir ∈ x.tdirs, ∀ a b, dir.loc = some (a, b) →
+      a ≤ b ∧ b ≤ s.length ∧
+      parseText fl ([123, 32, 97, 32] ++ slice s a b ++ [10, 125]) =
+        some (shorthandDoc [.field none ⟨[97], some (2, 3)⟩ [] [(dir.mapLoc (locDown a)).mapLoc (locUp 4)] none
+          (some (2, b - a + 4))] (b - a + 6)) := by
+  intro x hx dir hdir a b hloc
+  obtain ⟨hs, hwf⟩ := definition_tdirs fl x dir hdir
+  exact span_reparse_directive fl s d h x hx dir hs true (hwf (wf_of_mem fl s d h x hx)) a b hloc
+
+/-- every argument of every such directive: `{ a(σ⏎)}` -/
+theorem span_reparse_argument_ts (fl : Flags) (s : Text) (d : Document) (h : parseText fl s = some d) :
+    ∀ x ∈ d.definitions, ∀ dir ∈ x.tdirs, ∀ arg ∈ dir.arguments, ∀ a b, arg.loc = some (a, b) →
+      a ≤ b ∧ b ≤ s.length ∧
+      parseText fl ([123, 32, 97, 40] ++ slice s a b ++ [10, 41, 125]) =
+        some (shorthandDoc [.field none ⟨[97], some (2, 3)⟩ [(arg.mapLoc (locDown a)).mapLoc (locUp 4)] [] none
+          (some (2, b - a + 6))] (b - a + 7)) := by
+  intro x hx dir hdir arg harg a b hloc
+  obtain ⟨hs, hwf⟩ := definition_tdirs fl x dir hdir
+  obtain ⟨hs2, hwf2⟩ := directive_arguments true dir arg harg
+  exact span_reparse_argument fl s d h x hx arg (hs2.trans hs) true (hwf2 (hwf (wf_of_mem fl s d h x hx))) a b hloc
+
+private theorem descs_ts (x : Definition) (sv : StringValue) (h : sv ∈ x.descs) : isTypeSystem x = true := by
+  cases x <;> first | rfl | (simp [Definition.descs] at h)
+
+/-- every DESCRIPTION of every type-system definition (its own, and those of its field definitions, argument definitions,
+    enum values, input fields), quoted or block string: `σ⏎scalar A` parses to the scalar `A` carrying exactly that
+    description — no hypothesis (a document with a description was parsed with `allow_type_system`) -/
+theorem span_reparse_description_all (fl : Flags) (s : Text) (d : Document) (h : parseText fl s = some d) :
+    ∀ x ∈ d.definitions, ∀ sv ∈ x.descs, ∀ a b, sv.loc = some (a, b) →
+      a ≤ b ∧ b ≤ s.length ∧
+      parseText fl (slice s a b ++ 10 :: [115, 99, 97, 108, 97, 114, 32, 65]) =
+        some ⟨[.scalarTypeDefinition (some (sv.mapLoc (locDown a))) ⟨[65], some (b - a + 8, b - a + 9)⟩ []
+          (some (0, b - a + 9))], some (0, b - a + 9)⟩ := by
+  intro x hx sv hsv a b hloc
+  have hts : fl.allowTypeSystem = true := by
+    obtain ⟨_, _, wf, _⟩ := (parse_text_result_partial fl s d).1 h
+    simp only [wfDocument, Bool.and_eq_true, List.all_eq_true] at wf
+    have := (wf.2 x hx).2
+    rw [descs_ts x sv hsv] at this
+    simpa using this
+  exact span_reparse_description fl hts s d h x hx sv (definition_descs x sv hsv) a b hloc
+
 /-! ### non-vacuity: the enumerations of `query($v:I @k){a(x:[1]) @d ...{b}}` -/
 private def qdoc : Text := [113, 117, 101, 114, 121, 40, 36, 118, 58, 73, 32, 64, 107, 41, 123, 97, 40, 120, 58, 91, 49, 93,
   41, 32, 64, 100, 32, 46, 46, 46, 123, 98, 125, 125]
@@ -72,5 +123,14 @@ example : (parseText {} qdoc).map (fun d => d.definitions.map (fun x => x.dirs.m
     some [[some (11, 13), some (24, 26)]] := by decide
 example : (parseText {} qdoc).map (fun d => d.definitions.map (fun x => x.args.map (·.loc))) =
     some [[some (17, 22)]] := by decide
+
+/-- `"T" type T @k(x:1){"d" f("q" a:I @m):I @n}`: directives, their arguments and descriptions of a type definition -/
+private def tdoc2 : Text := [34, 84, 34, 32, 116, 121, 112, 101, 32, 84, 32, 64, 107, 40, 120, 58, 49, 41, 123, 34, 100, 34, 32, 102,
+  40, 34, 113, 34, 32, 97, 58, 73, 32, 64, 109, 41, 58, 73, 32, 64, 110, 125]
+private def tsFl2 : Flags := { allowTypeSystem := true }
+example : (parseText tsFl2 tdoc2).map (fun d => d.definitions.map (fun x => x.tdirs.map (·.loc))) =
+    some [[some (11, 18), some (33, 35), some (39, 41)]] := by decide
+example : (parseText tsFl2 tdoc2).map (fun d => d.definitions.map (fun x => x.descs.map (·.loc))) =
+    some [[some (0, 3), some (19, 22), some (25, 28)]] := by decide
 
 end PyGql.Props.C02
